@@ -69,6 +69,11 @@ func (t *T) DeepCopy() *T {
 		IsStatic:            t.IsStatic,
 	}
 
+	// the value of a key/value entry (or of a block) is a T of its own
+	if valueT, ok := t.val.(*T); ok {
+		result.val = valueT.DeepCopy()
+	}
+
 	if t.defineArgs != nil {
 		result.defineArgs = make([]string, len(t.defineArgs))
 		copy(result.defineArgs, t.defineArgs)
